@@ -38,7 +38,7 @@ struct InflateSession {
                 const Json &src = plan.at("src");
                 int kind = (int) ((uint64_t) src.geti("kind") % 3);
                 const Json &dj = src.at("dict");
-                uint32_t dn = (uint32_t) ((uint64_t) dj.geti("n") % 32769);
+                uint32_t dn = (uint32_t) ((uint64_t) dj.geti("n") % 70001); // only the last 32 KiB of a longer dictionary matter
                 if (dn && kind != 2) {
                         dict.resize(dn);
                         Rng dr((uint64_t) dj.geti("s"), "idict");
@@ -379,6 +379,7 @@ struct InflateSession {
                 if (GUARDED(gc, {
                             isal_inflate_init(s);
                             s->crc_flag = mode;
+                            s->hist_bits = ihb();
                             s->next_in = si->data;
                             s->avail_in = (uint32_t) bytes.size();
                             s->next_out = so->data;
@@ -703,7 +704,10 @@ struct InflateSession {
                         return;
                 }
                 st->crc_flag = mode;
-                st->hist_bits = (hb == 15) ? 15 : 0;
+                st->hist_bits = ihb();
+                (void) hb;
+                if (st->hist_bits && st->hist_bits < 15)
+                        COUNT("cfg.inflate_limited_window");
                 if (!dict.empty() && !need_dict_zlib) { // raw / no-header modes: the caller primes the dictionary up front
                         Slot *sd = g_arena.alloc(dict.size(), place, "inflate_dict", 0, 1);
                         if (!sd)
@@ -749,6 +753,12 @@ struct InflateSession {
                 }
         }
 
+        // the decoder's announced window: 0 = default, 1..15 = log2 of the largest distance it has to accept
+        uint32_t ihb() const
+        {
+                int64_t hb = plan.geti("ihb");
+                return hb >= 1 && hb <= 15 ? (uint32_t) hb : 0;
+        }
         // ------------------------------------------------------------ verdicts
         void judge()
         {
@@ -761,6 +771,19 @@ struct InflateSession {
                 if (rs == REF_NEED_DICT)
                         rs = ref.feed(bytes.data(), bytes.size());
                 h.rec("verdict", { finished, final_ret, unfinished, rs, (int64_t) delivered.size(), (int64_t) hash_bytes(delivered.data(), delivered.size()) });
+                // A decoder told that the window is 2^w may refuse (as an invalid symbol) any distance beyond it.  The reference has no
+                // such limit: where it met a longer distance, or the injected fault is itself a distance, only the safety clauses and
+                // "finished means the reference's bytes" remain; everywhere else the limited decoder must behave exactly like the default.
+                uint32_t w = ihb();
+                bool window_exceeded = w && w < 15 && (ref.max_dist > (1u << w) || gfault == GF_DIST_TOO_FAR || gfault == GF_DIST_SYM_30);
+                if (window_exceeded) {
+                        COUNT("probe.distance_beyond_decoder_window");
+                        if (finished && rs == REF_DONE && (ref.out.size() != delivered.size() || memcmp(ref.out.data(), delivered.data(), delivered.size())))
+                                rr.fail("C06.wrong_output", strf("decoder (window 2^%u) finished with %zu bytes, reference decodes %zu bytes", w, delivered.size(), ref.out.size()));
+                        else if (finished && rs != REF_DONE && rs != REF_ERR_OUTLIMIT && rs != REF_ERR_TRAILER)
+                                rr.fail("C06.false_success", strf("decoder (window 2^%u) reports completion but the reference decoder says: %s", w, ref_status_name(rs)));
+                        return;
+                }
                 bool verifying = mode == ISAL_GZIP || mode == ISAL_ZLIB || mode == ISAL_GZIP_NO_HDR_VER || mode == ISAL_ZLIB_NO_HDR_VER;
                 // (3) no false success
                 if (finished) {
@@ -912,11 +935,11 @@ static Json gen_inflate(Rng &r0, const std::string &focus, int tier)
                 fmt = 1 + (int) r.below(2);
         p.set("os_out", r.chance(1, 6) ? (int64_t) (1 + r.logsize(200000)) : 0);
         p.set("os_sweep", (int) r.chance(1, focus == "C05" || focus == "C06" ? 6 : 20));
-        p.set("fmt", fmt).set("mode", focus == "C19" ? 0 : (int) r.below(4)).set("zlevel", (int) r.below(4)).set("ihb", (int) (r.chance(1, 4) ? 15 : 0));
+        p.set("fmt", fmt).set("mode", focus == "C19" ? 0 : (int) r.below(4)).set("zlevel", (int) r.below(4)).set("ihb", (int) (r.chance(1, 2) ? 0 : r.chance(1, 4) ? 15 : r.chance(1, 4) ? 1 + r.below(8) : 9 + r.below(6)));
         Json src = Json::obj();
         int kind = (int) r.below(3);
         bool damaged = focus == "C06" ? r.chance(4, 5) : focus == "C11" ? r.chance(3, 4) : (focus == "C07" || focus == "C19") ? false : r.chance(1, 2);
-        uint64_t maxlen = r.chance(1, 12) ? 150000 : r.chance(1, 3) ? 40000 : 4000;
+        uint64_t maxlen = r.chance(1, focus == "C06" ? 6 : 12) ? 150000 : r.chance(1, 3) ? 40000 : 4000;
         src.set("kind", kind).set("data", gen_data_spec(r, maxlen, 0)).set("level", (int) r.below(4));
         static const int hbs[] = { 0, 0, 0, 9, 12, 15 };
         src.set("hb", r.pick(hbs));
@@ -934,10 +957,10 @@ static Json gen_inflate(Rng &r0, const std::string &focus, int tier)
         int gf = 0;
         if (damaged && kind == 2 && rx.chance(2, 3))
                 gf = 1 + (int) rx.below(GF_NKINDS - 1);
-        gram.set("s", r.u64() >> 16).set("n", (uint64_t) r.logsize(r.chance(1, 6) ? 100000 : 5000)).set("fault", gf).set("dict", r.chance(1, 5) ? (uint64_t) r.logsize(32768) : 0);
+        gram.set("s", r.u64() >> 16).set("n", (uint64_t) r.logsize(r.chance(1, 6) ? 100000 : 5000)).set("fault", gf).set("dict", r.chance(1, 5) ? (uint64_t) r.logsize(32768) : 0).set("ld", r.chance(1, 3) ? (int) (1 + r.below(3)) : 0);
         src.set("gram", gram);
         Json dj = Json::obj();
-        dj.set("n", r.chance(1, focus == "C19" ? 2 : 6) ? (uint64_t) (1 + r.logsize(32767)) : 0).set("s", r.u64() >> 20);
+        dj.set("n", r.chance(1, focus == "C19" ? 2 : 6) ? (r.chance(1, 5) ? (uint64_t) (32767 + r.logsize(37233)) : (uint64_t) (1 + r.logsize(32767))) : 0).set("s", r.u64() >> 20);
         src.set("dict", dj);
         p.set("src", src);
         Json gz = Json::obj();
